@@ -1,4 +1,115 @@
-#![allow(unused)]
+//! C01 (totality), C02 (accepts exactly the well-formed packets), C04 (summaries equal the bytes), C18 (termination only)
+//! replayed on the real `DNSSector::parse` and the public primitives.
 use crate::util::*;
-pub fn replay(_p: &str, _a: &[&str]) -> Result<(), String> { Err("not implemented".into()) }
-pub fn gen(_p: &str, _r: &mut Rng) -> Vec<String> { vec![] }
+use crate::wire;
+use dnssector::*;
+
+/// ops:  parse <hex>  |  name <hex> <offset>  |  cursor <hex> <set_offset> <increment>
+pub fn replay(prop: &str, a: &[&str]) -> Result<(), String> {
+    if a.is_empty() { return Err("usage: <prop> parse <hex> | name <hex> <off> | cursor <hex> <off> <n>".into()); }
+    match a[0] {
+        "parse" => {
+            let p = unhex(a[1])?;
+            let reference = wire::parse_ref(&p);
+            let real = DNSSector::new(p.clone()).map_err(|e| e.to_string())?.parse();
+            match (&real, &reference) {
+                (Ok(pp), _) if pp.packet.as_deref() != Some(&p[..]) => return Err("parsed packet does not hold the input bytes".into()),
+                (Ok(_), None) if prop != "c01" && prop != "c18" => return Err("accepted a packet that is not well-formed under C02".into()),
+                (Err(e), Some(_)) if prop != "c01" && prop != "c18" => return Err(format!("rejected a well-formed packet: {}", e)),
+                _ => {}
+            }
+            if let (Ok(pp), Some(m)) = (real, reference) {
+                summaries(pp, &p, &m)?;
+            }
+            Ok(())
+        }
+        "name" => {
+            let p = unhex(a[1])?;
+            let off: usize = a[2].parse().map_err(|_| "bad offset")?;
+            let r1 = Compress::check_compressed_name(&p, off).ok();
+            let e1 = wire::name_walk(&p, off).map(|x| x.0);
+            if r1 != e1 { return Err(format!("check_compressed_name = {:?}, policy says {:?}", r1, e1)); }
+            let r2 = DNSSector::check_uncompressed_name(&p, off).ok();
+            let e2 = wire::plain_walk(&p, off);
+            if r2 != e2 { return Err(format!("check_uncompressed_name = {:?}, policy says {:?}", r2, e2)); }
+            Ok(())
+        }
+        "cursor" => {
+            let p = unhex(a[1])?;
+            let off: usize = a[2].parse().map_err(|_| "bad offset")?;
+            let n: usize = a[3].parse().map_err(|_| "bad n")?;
+            let mut ds = DNSSector::new(p.clone()).map_err(|e| e.to_string())?;
+            let r = ds.set_offset(off);
+            if r.is_ok() != (off < p.len()) { return Err("set_offset accepted/rejected wrongly".into()); }
+            let before = ds.offset;
+            let r = ds.increment_offset(n);
+            let fits = before.checked_add(n).map_or(false, |x| x <= p.len());
+            if r.is_ok() != fits { return Err("increment_offset accepted/rejected wrongly".into()); }
+            if ds.offset > p.len() { return Err("cursor outside the packet".into()); }
+            let _ = ds.rr_rdlen();
+            let _ = ds.edns_rr_rdlen();
+            if ds.packet != p { return Err("bytes changed".into()); }
+            Ok(())
+        }
+        _ => Err(format!("unknown op {}", a[0])),
+    }
+}
+
+/// C04: every summary the object reports equals the independent decode
+fn summaries(mut pp: ParsedPacket, p: &[u8], m: &wire::Msg) -> Result<(), String> {
+    let w = be16(p, 2);
+    let (ext_flags, ext_rcode, version, count, payload) = match m.opt {
+        Some(o) => (Some(be16(p, o + 6)), Some(p[o + 4]), Some(p[o + 5]), m.options.len() as u16, be16(p, o + 2) as usize),
+        None => (None, None, None, 0, 512),
+    };
+    if pp.tid() != be16(p, 0) { return Err("tid".into()); }
+    if pp.flags() != ((ext_flags.unwrap_or(0) as u32) << 16) | (w & 0x87f0) as u32 { return Err("flags".into()); }
+    if pp.rcode() != (w & 0xf) as u8 { return Err("rcode".into()); }
+    if pp.opcode() != ((w >> 11) & 0xf) as u8 { return Err("opcode".into()); }
+    if pp.is_response() != (w & 0x8000 != 0) { return Err("is_response".into()); }
+    let dnssec = if w & 0x8000 == 0 { ext_flags.unwrap_or(0) & 0x8000 != 0 } else { w & 0x20 != 0 };
+    if pp.dnssec() != dnssec { return Err("dnssec".into()); }
+    if pp.ext_flags != ext_flags { return Err("ext_flags".into()); }
+    if pp.ext_rcode != ext_rcode { return Err("ext_rcode".into()); }
+    if pp.edns_version != version { return Err("edns_version".into()); }
+    if pp.edns_count != count { return Err(format!("edns_count {} vs {}", pp.edns_count, count)); }
+    if pp.max_payload() != payload { return Err("max_payload".into()); }
+    if pp.offset_edns != m.opt.map(|o| o + 10) { return Err("offset_edns".into()); }
+    if pp.offset_question != m.starts[0] || pp.offset_answers != m.starts[1] || pp.offset_nameservers != m.starts[2] || pp.offset_additional != m.starts[3] {
+        return Err("section offsets".into());
+    }
+    if pp.qtype_qclass() != Some((m.qtype, m.qclass)) { return Err("qtype_qclass".into()); }
+    let q = pp.question().ok_or("question() none")?;
+    if q.0 != wire::to_text(&m.qname) || q.1 != m.qtype || q.2 != m.qclass { return Err(format!("question() = {:?}", q)); }
+    {
+        let q0 = pp.question_raw0().ok_or("question_raw0() none")?;
+        if q0.0 != &m.qname[..] || q0.1 != m.qtype || q0.2 != m.qclass { return Err("question_raw0()".into()); }
+    }
+    {
+        let q1 = pp.question_raw().ok_or("question_raw() none")?;
+        if q1.0 != &m.qname[..m.qname.len() - 1] || q1.1 != m.qtype || q1.2 != m.qclass { return Err("question_raw()".into()); }
+    }
+    // after the cache is filled, the other forms must still agree
+    let q = pp.question().ok_or("question() none")?;
+    if q.0 != wire::to_text(&m.qname) { return Err("question() after caching".into()); }
+    if pp.qtype_qclass() != Some((m.qtype, m.qclass)) { return Err("qtype_qclass after caching".into()); }
+    if pp.packet.as_deref() != Some(p) { return Err("bytes changed by getters".into()); }
+    Ok(())
+}
+
+pub fn gen(prop: &str, r: &mut Rng) -> Vec<String> {
+    let k = r.below(20);
+    if k == 0 && prop != "c04" {
+        let p = wire::gen_packet(r);
+        let off = if r.chance(1, 4) { r.next() as usize } else { r.below(p.len() as u64 + 3) as usize };
+        return vec![prop.into(), "name".into(), hex(&p), off.to_string()];
+    }
+    if k == 1 && prop == "c01" {
+        let p = wire::gen_packet(r);
+        let off = if r.chance(1, 4) { usize::MAX - r.below(3) as usize } else { r.below(p.len() as u64 + 3) as usize };
+        let n = if r.chance(1, 4) { usize::MAX - r.below(3) as usize } else { r.below(p.len() as u64 + 3) as usize };
+        return vec![prop.into(), "cursor".into(), hex(&p), off.to_string(), n.to_string()];
+    }
+    let p = if k == 2 { wire::gen_boundary(r) } else if prop == "c04" { let c = r.chance(3, 4); wire::gen_valid(r, c) } else { wire::gen_packet(r) };
+    vec![prop.into(), "parse".into(), hex(&p)]
+}
